@@ -62,6 +62,20 @@ func buildWorkload(p *modelParams) (forge.Eras, *gen.Mixed, uint32) {
 			e.PIP10 += d
 		}
 	}
+	if feat["snapshot-before-dev"] && !p.Literal {
+		// make sure a snapshot height lies between 2.0 and the developer-reward activation: staking snapshots start
+		// with 2.0, not with the later activations that also act once a day
+		if s := ((e.V20 + 143) / 144) * 144; s+2 >= e.V20Dev {
+			d := s + 70 - e.V20Dev
+			e.V20Dev += d
+			e.SprSig += d
+			e.V202 += d
+			e.OneWaySmall += d
+			e.V204 += d
+			e.V204Burn += d
+			e.PIP10 += d
+		}
+	}
 	if feat["busy"] {
 		mo.TxPerBlock = 10
 	}
@@ -355,6 +369,8 @@ func init() {
 					}
 					if i%2 == 1 {
 						ps[i].Features = append(ps[i].Features, "ungraded-snapshot") // snapshot heights without rates, before and after 2.0.2
+					} else {
+						ps[i].Features = append(ps[i].Features, "snapshot-before-dev") // the first snapshot lies before the developer-reward activation
 					}
 				}
 				return ps
@@ -420,7 +436,7 @@ func init() {
 	registry["C04"] = func(c *Ctx) *orch.Outcome {
 		return runModelCheck(c, modelSpec{Level: "exploration",
 			Rule: "one evaluation = one block applied by the real daemon; per asset, the observed change of total supply must equal the sum of the block's issuance/destruction events (mining, staking, holder and developer payouts, FCT burns, conversions, bank yield/refund, burn-address transfers, one-time adjustments) computed by the reference rules, and every address/asset balance must equal the prediction (so nobody outside the block's events changes; a transfer's debit equals its credits). Distinct non-trivial = (event kind, era) pairs observed.",
-			Profiles: func(c *Ctx) []modelParams { return stdProfiles(c, 3, 64, "busy", "c03") },
+			Profiles: func(c *Ctx) []modelParams { return stdProfiles(c, 3, 64, "busy", "c03", "c13") },
 			NonTrivial: func(rs []*orch.Result) (int64, map[string]interface{}) {
 				k := orch.UnionDistinct(rs, "event_kinds")
 				return int64(len(k)), map[string]interface{}{"event_kind_era_pairs": k, "supply_deltas_checked": orch.SumCounter(rs, "supply_deltas_checked")}
